@@ -1,2 +1,3 @@
 import Driver.Dec
+import Driver.Rid
 import Driver.Main
